@@ -245,6 +245,9 @@ def build_modelrun():
         if not os.path.exists(os.path.join(COQ, "gen", "LocaleTables.v")):
             import gen_locale
             gen_locale.run()
+        if not os.path.exists(os.path.join(COQ, "gen", "LockTable.v")):
+            import gen_locktable
+            gen_locktable.run()
         txt = open(srcs[0]).read()
         mods = re.findall(r"From Tulz Require Import ([^.]+)\.", txt)
         names = [n for m in mods for n in m.split()]
